@@ -25,7 +25,7 @@
     Reading aid.  [amb_ok a]: every [ord_*] field returns a permutation of its argument.
     [tx_wf]: the keys of a Go map are distinct; the evidence step needs C04's snapshot sanity. *)
 From Coq Require Import List ZArith Bool String Permutation.
-From Paloma Require Import Base.Num Evm.Assign Cons.Quorum Sys.Ambient Sys.AmbientProofs.
+From Paloma Require Import Base.Num Evm.Assign Cons.Quorum Sys.Ambient Sys.AmbientProofs Sys.NodeLocal Sys.NodeLocalProofs.
 From Paloma Require Gen.C08.
 Import ListNotations.
 Open Scope Z_scope.
@@ -134,3 +134,56 @@ Print Assumptions set_build_perm_invariant.
 Theorem nondet_sites_closed : forallb classified Gen.C08.sites = true.
 Proof. exact nondet_sites_closed_lemma. Qed.
 Print Assumptions nondet_sites_closed.
+
+(** Round 2.  Node-local activity is invisible: a node's life is its chain history interleaved with
+    any number of executions on DISCARDED branches of the state (CheckTx, simulate queries, failed
+    transactions — under any ambient) and RESTARTS.  The store is branchable, process memory is not
+    ([nstep]: a simulated step keeps whatever it left in [st_cache]; a restart resets it).  From the
+    state a node is constructed with, its final state and the results of its delivered transactions are
+    those of the chain history alone ... *)
+Theorem node_local_activity_invisible_partial :
+  forall (h : list nop) (s : State), st_cache s = cache0 -> nrun h s = run_amb (delivered h) s.
+Proof. exact nrun_is_delivered. Qed.
+Print Assumptions node_local_activity_invisible_partial.
+
+(** ... hence two nodes with the same chain history agree, whatever else each of them executed,
+    simulated or restarted, under whatever ambients. *)
+Theorem two_nodes_same_history_partial :
+  forall (h h' : list nop) (s : State), st_cache s = cache0 ->
+  Forall2 (fun x y => snd x = snd y /\ amb_ok (fst x) /\ amb_ok (fst y) /\ tx_wf (snd x)) (delivered h) (delivered h') ->
+  nrun h s = nrun h' s.
+Proof. exact two_nodes_agree. Qed.
+Print Assumptions two_nodes_same_history_partial.
+
+(** The hypothesis "no handler leaves store-derived data in process memory" (the RecvFieldWrite /
+    GlobalWrite part of the inventory) is needed: with a write-through cache of store records behind
+    a pointer, a write on a discarded branch is read back (one node), and of two nodes with the same
+    chain history and the same store the one restarted in between answers differently.  (Replayed on
+    the real keepers by harness/c08 corpus history 1: identical answers on the current tree.) *)
+Theorem pointer_cache_refuted :
+  (exists h n, c_mem n = [] /\ snd (cnrun h n) <> snd (cnrun (cdelivered h) n)) /\
+  (exists h h' n, c_mem n = [] /\ cdelivered h = cdelivered h' /\ fst (cnrun h n) <> fst (cnrun h' n) /\
+                  c_store (fst (cnrun h n)) = c_store (fst (cnrun h' n)) /\ snd (cnrun h n) <> snd (cnrun h' n)).
+Proof. exact (conj write_through_cache_refuted write_through_cache_restart_refuted). Qed.
+Print Assumptions pointer_cache_refuted.
+
+(** The jailing loop of the consensus prune job (jailValidatorsWhichMissedAttestation calling
+    valset.Jail with its 25 %-of-active-stake protection) is ORDER-SENSITIVE: permuting the validators
+    without evidence changes who ends up jailed, so a map range there (order from the ambient) would
+    make two nodes disagree.  The source ranges over the snapshot's validator slice — state, not
+    ambient — and calls Jail inside that loop (regenerated from the source on every check). *)
+Theorem jail_loop_order_is_state :
+  Gen.C08.jail_missing_loop = "slice:snapshot.Validators"%string /\
+  (exists st o o', Permutation o o' /\ jailed_ids (jail_round st o) <> jailed_ids (jail_round st o')) /\
+  (exists a a' st o, amb_ok a /\ amb_ok a' /\
+     jailed_ids (jail_round st (ord_keys a o)) <> jailed_ids (jail_round st (ord_keys a' o))).
+Proof. exact (conj jail_loop_source_shape (conj jail_order_sensitive jail_map_order_refuted)). Qed.
+Print Assumptions jail_loop_order_is_state.
+
+(** Whatever the order: a Jail that changes the state hit an unjailed validator that is not the last
+    active one and holds at most 25 % of the active stake. *)
+Theorem jail_protection_holds :
+  forall (st : list jv) (id : Z), jail_one st id <> st ->
+  exists v, find_val id st = Some v /\ jv_jailed v = false /\ active_count st <> 1 /\ 4 * jv_power v <= active_total st.
+Proof. exact jail_protection. Qed.
+Print Assumptions jail_protection_holds.
